@@ -232,7 +232,9 @@ def compileScssPath (w : World Val) (fuel : Nat) (p : Text) (fmt : Format) : Opt
   | none => none
   | some (paths, data) => transform w fuel paths fmt data
 
-/-- `compile_value(input, format)` -/
+/-- `compile_value(input, format)`.  Since fix 605a7fd the body ends
+`value.format(format).to_string().replace('\n', " ").into_bytes()` — the spec instance (flag off);
+with the flag on it is the earlier body `value.format(format).to_string().into_bytes()`. -/
 def compileValue (q : EntryQuirks) (w : World Val) (input : Text) (fmt : Format) : Option Text :=
   match w.evalValue fmt input with
   | none => none
